@@ -2161,3 +2161,8 @@ V("C18", "redeclared_selector_loses_labels", "fire", "R18.p", (P, "            s
 # --- fail-closed -> violation upgrades (while round j runs)
 V("C01", "non_class_value_falls_back_to_isinstance", "fire", "R01.h", (P, "        if (is_instance and isinstance(val, class_)) or (not is_instance and issubclass(val, class_)):\n            return\n", "        check = issubclass if (not is_instance and isinstance(val, type)) else isinstance\n        if check(val, class_):\n            return\n"))
 V("C01", "benign_class_test_chosen_by_name", "benign", None, (P, "        if (is_instance and isinstance(val, class_)) or (not is_instance and issubclass(val, class_)):\n            return\n", "        check = isinstance if is_instance else issubclass\n        if check(val, class_):\n            return\n"))
+V("C06", "rebuilt_watcher_queued_next_to_the_one_it_replaces", "fire", "R06.q", (Z, "                        pending[:] = [watcher if q is w else q for q in pending]", "                        pass"))
+V("C07", "rebuilt_watcher_queued_next_to_the_one_it_replaces", "fire", "R07.q", (Z, "                        pending[:] = [watcher if q is w else q for q in pending]", "                        pass"))
+V("C06", "replaced_watcher_dropped_from_the_queue_without_successor", "fire", "R06.q", (Z, "                        pending[:] = [watcher if q is w else q for q in pending]", "                        pending[:] = [q for q in pending if q is not w]"), (Z, "            if not any(watcher is w for w in self_._state_watchers):\n                self_._state_watchers.append(watcher)", "            if not any(watcher is w for w in self_._state_watchers) and watcher.precedence >= 0:\n                self_._state_watchers.append(watcher)"))
+V("C06", "benign_queue_slot_handed_over_by_index", "benign", None, (Z, "                        pending[:] = [watcher if q is w else q for q in pending]", "                        for i, q in enumerate(pending):\n                            if q is w:\n                                pending[i] = watcher"))
+V("C07", "benign_queue_slot_handed_over_by_index", "benign", None, (Z, "                        pending[:] = [watcher if q is w else q for q in pending]", "                        for i, q in enumerate(pending):\n                            if q is w:\n                                pending[i] = watcher"))
